@@ -24,6 +24,15 @@ import Compass.Model.Json
 
 namespace Compass
 
+/-- the errors of a sub-search that the k-shortest-paths algorithms never absorb: a limit of the
+termination model (`SearchError::TerminationModelFailure`: its `QueryTerminated` source is
+`.terminated`; its `RuntimeError` source would be `.internal` but never occurs,
+`SearchLimits.test_ne_internal`) and a Rust panic, which unwinds through every caller -/
+def ErrKind.stopsQuery : ErrKind → Bool
+  | .terminated _ => true
+  | .panic _ => true
+  | _ => false
+
 /-- `sqrt` of the numeric type (IEEE `f64::sqrt` in the driver) -/
 class HasSqrt (α : Type) where
   sqrt : α → α
@@ -283,9 +292,11 @@ def singleVia (c : Config α) (gcRev : List α) (sim : List Nat → List Nat →
   | .error e => .error e
   | .ok fres =>
     match runVertexOriented cr.inst target (some source) revSched with
-    | .error _ =>
-      -- the reverse search failed: no alternatives, the shortest route alone (before the
-      -- tree-count checks); only the backtrack's own error could still be propagated
+    | .error e =>
+      if e.stopsQuery then .error e   -- `Err(e @ TerminationModelFailure { .. }) => return Err(e)`
+      else
+      -- any other failure of the reverse search: no alternatives, the shortest route alone (before
+      -- the tree-count checks); only the backtrack's own error could still be propagated
       match backtrack source target fres.final.sol (fres.final.solSize + 1) with
       | .error e => .error e
       | .ok tsp => .ok { trees := [fres.final.sol], routes := [tsp].take k,
